@@ -5,6 +5,11 @@ A kernel is described by a dict:
   impl_block(case, ga, gb) -> ndarray, impl_int(case, gbasis, T) -> ndarray,
   post(impl_array) -> real ndarray to compare with the model (e.g. -imag for momentum type),
   tol(case, model_nested, level) -> (tol_abs or None, tol_fn or None), extra_check(case, impl, model) -> detail|None
+
+History streams (hidden state / "the value depends only on the arguments"): basis-level shells are built WITH the atom
+index (icenter); a basis-level case may carry case["hist"] = further geometries (per-shell centres): the same shells are
+then evaluated, in the same process, at every geometry in turn and at the first geometry again, each call against the
+exact model at that geometry (add_history, run_history, shrink_history; detail kind "history").
 """
 import itertools
 import os
